@@ -447,6 +447,7 @@ def run(chk, S: Session):
 
     c09_iwp.hilbert_rules(chk, S)
     c09_iwp.iwp_rules(chk, S)
+    c09_iwp.factory_rules(chk, S)
 
 
 def scaling_rules(chk, S, r3):
